@@ -668,12 +668,18 @@ class Gen:
         taken_e = {c.name.pascal for c in f0.components}
         names = Names(r, cfg["keyword_rate"], cfg["styles"], cfg.get("max_words", 3), cfg.get("name_pool"))
         wuri = f0.uri
+        share_prefix = False
         import random as _random
         if _random.Random("wsdl-ns:" + "|".join(c.name.xml for c in f0.components)).random() < self.cfg.get("p_wsdl_own_ns", 0.4):
             # the definitions element has a target namespace of its own (messages, port types and bindings live there), the
             # inline schema another one
             wuri = f0.uri.rstrip("/") + "/wsdl"
             self.features.add("wsdl-namespace-differs-from-inline-schema")
+            if "wsdl-prefix-rebound-in-inline-schema" not in self.q and f0.prefixes.get(0) and \
+                    _random.Random("wsdl-share:" + wuri).random() < self.cfg.get("p_wsdl_share_prefix", 0.5):
+                # the usual `tns`: bound to the WSDL's namespace on <definitions>, re-bound to the schema's namespace on the inline schema
+                share_prefix = True
+                self.features.add("wsdl-prefix-rebound-in-inline-schema")
         w = Wsdl(wuri, names.fresh(set(), set(), style="pascal", allow_keyword=False), names.fresh(set()), names.fresh(set()),
                  names.fresh(set()))
         f0.filename = w.filename
@@ -770,6 +776,7 @@ class Gen:
             if nh_in or op.out_headers:
                 self.features.add("soap-headers")
             w.operations.append(op)
+        w.share_prefix = share_prefix
         ss.wsdl = w
         self.features.add("wsdl")
 
